@@ -37,7 +37,7 @@ AXES = {
     "lb": (["nonneg", "any"], ["nonneg", "any"]),
     "W": (["mat", "vec"], ["mat", "vec", None]),
     "K": (["vec"], ["vec", "mat", None]),
-    "baseline": (["vec"], ["vec", None]),
+    "baseline": (["vec"], ["vec", None, "scalar"]),
 }
 
 
@@ -64,7 +64,11 @@ def check(rep, an, tier):
     n_stack_err = 0
     results = []
     for fname, extra in ENTRIES:
-        for cfg in lsq_configs(tier, AXES):
+        cfgs = list(lsq_configs(tier, AXES))
+        if tier == "quick":
+            d0 = {n: AXES[n][0][0] for n in AXES}
+            cfgs.append(dict(d0, K=None, baseline="scalar"))       # scalar baseline (one-element array) × batch stacking
+        for cfg in cfgs:
             for L1 in ([None, True] if fname == "lsq_linear_minimize" else [None]):
                 res, name = run_entry(an, fname, extra, cfg, L1)
                 results.append((res, name, cfg))
